@@ -31,6 +31,9 @@ type FuncContract struct {
 	Panics      []*Clause // exact panic conditions; absent => must not panic
 	Raises      []*Clause // exact panic conditions that callers may let propagate (fail-closed faults)
 	Invs        []*Clause
+	Specs       []*Clause // package section: definitions of spec functions, assumed in every function of the package
+	PkgInvs     []*Clause // package section: facts about never-written package state, proved as postconditions of init
+	CallGhosts  []*CallGhost
 	Modifies    []string // ghost vars and heap components the function may change beyond fresh memory
 	Uses        []string // opt-in lemma axioms available to this function's obligations
 	Ghosts      []string // function-local ghost arrays (Array Int Int), existential for callers
@@ -55,6 +58,16 @@ type GhostUpd struct {
 	Line     int
 }
 
+// CallGhost: "call NAME#k ghost G[idx] = val", executed right after the k-th call of NAME returns
+// (locals as at the call; res0.. = the call's results; recv = an invoked receiver with its dynamic type).
+type CallGhost struct {
+	Callee   string
+	Ordinal  int
+	Name     string
+	Idx, Val ast.Expr
+	Line     int
+}
+
 // Define: a contract-local macro "define f(a, b) = expr".
 type Define struct {
 	Params []string
@@ -66,10 +79,11 @@ type ContractSet struct {
 	Order []string
 }
 
-var clauseHead = regexp.MustCompile(`^(requires|ensures|trusted-ensures|panics|raises|assume)\s*(\[[^\]]*\])?\s*([A-Za-z0-9_\-\.]+)\s*:\s*(.*)$`)
+var clauseHead = regexp.MustCompile(`^(requires|ensures|trusted-ensures|panics|raises|assume|spec|invariant)\s*(\[[^\]]*\])?\s*([A-Za-z0-9_\-\.]+)\s*:\s*(.*)$`)
 var retGhostHead = regexp.MustCompile(`^atreturn\s+ghost\s+([A-Za-z_][A-Za-z0-9_]*)(\[(.*?)\])?\s*=\s*(.*)$`)
 var ghostSetHead = regexp.MustCompile(`^loop\s+(\d+)\s+ghost\s+([A-Za-z_][A-Za-z0-9_]*)\s*=\s*(.*)$`)
 var ghostUpdHead = regexp.MustCompile(`^loop\s+(\d+)\s+ghost\s+([A-Za-z_][A-Za-z0-9_]*)\[(.*?)\]\s*=\s*(.*)$`)
+var callGhostHead = regexp.MustCompile(`^call\s+([A-Za-z_][A-Za-z0-9_\.]*)#(\d+)\s+ghost\s+([A-Za-z_][A-Za-z0-9_]*)(\[(.*?)\])?\s*=\s*(.*)$`)
 var defineHead = regexp.MustCompile(`^define\s+([A-Za-z_][A-Za-z0-9_]*)\(([^)]*)\)\s*=\s*(.*)$`)
 var loopHead = regexp.MustCompile(`^loop\s+(\d+)\s+invariant\s*(\[[^\]]*\])?\s*([A-Za-z0-9_\-\.]+)\s*:\s*(.*)$`)
 
@@ -108,6 +122,9 @@ func parseContractFile(path string, cs *ContractSet) error {
 		if t == "" || strings.HasPrefix(t, "//") {
 			continue
 		}
+		if t == "package" {
+			t = "func package"
+		}
 		if strings.HasPrefix(t, "func ") {
 			if err := finish(); err != nil {
 				return err
@@ -132,6 +149,10 @@ func parseContractFile(path string, cs *ContractSet) error {
 			switch c.Kind {
 			case "requires", "assume":
 				cur.Requires = append(cur.Requires, c)
+			case "spec":
+				cur.Specs = append(cur.Specs, c)
+			case "invariant":
+				cur.PkgInvs = append(cur.PkgInvs, c)
 			case "ensures":
 				cur.Ensures = append(cur.Ensures, c)
 			case "trusted-ensures":
@@ -160,6 +181,27 @@ func parseContractFile(path string, cs *ContractSet) error {
 				return fmt.Errorf("%s:%d: %v", path, i+1, err)
 			}
 			cur.GhostUpd = append(cur.GhostUpd, &GhostUpd{Loop: n, Name: m[2], Idx: ie, Val: ve, Line: i + 1})
+			continue
+		}
+		if m := callGhostHead.FindStringSubmatch(t); m != nil {
+			if err := finish(); err != nil {
+				return err
+			}
+			n, _ := strconv.Atoi(m[2])
+			cg := &CallGhost{Callee: m[1], Ordinal: n, Name: m[3], Line: i + 1}
+			if m[5] != "" {
+				ie, err := parseContractExpr(m[5])
+				if err != nil {
+					return fmt.Errorf("%s:%d: %v", path, i+1, err)
+				}
+				cg.Idx = ie
+			}
+			ve, err := parseContractExpr(m[6])
+			if err != nil {
+				return fmt.Errorf("%s:%d: %v", path, i+1, err)
+			}
+			cg.Val = ve
+			cur.CallGhosts = append(cur.CallGhosts, cg)
 			continue
 		}
 		if m := retGhostHead.FindStringSubmatch(t); m != nil {
@@ -225,7 +267,11 @@ func parseContractFile(path string, cs *ContractSet) error {
 			if k := strings.Index(decl, " ("); k > 0 && !strings.Contains(decl[:k], ",") {
 				// "ghost NAME (Array Int Str)": explicit sort
 				cur.Ghosts = append(cur.Ghosts, decl[:k])
-				cur.GhostSort[decl[:k]] = strings.TrimSpace(decl[k:])
+				srt := strings.TrimSpace(decl[k:])
+				if !strings.Contains(srt, " ") {
+					srt = strings.Trim(srt, "()") // "(Str)": a plain sort
+				}
+				cur.GhostSort[decl[:k]] = srt
 				continue
 			}
 			for _, x := range strings.Split(decl, ",") {
